@@ -16,6 +16,14 @@ def report_error_in_region(f, region):
         t = f.blocks[b]["term"]
         if t["k"] == "call" and re.search(r"Report::push_parent$", re.sub(r"::<[^<>]*>", "", t.get("resolved") or t.get("callee") or "")):
             return True
+        # a local helper that does the reporting (one level): it takes the report and pushes a message on every path
+        if t["k"] == "call" and t.get("resolved_local") and any("diagn::report::Report" in (x or "") for x in t.get("arg_tys", [])):
+            h = f.prog.fn(t.get("resolved") or "")
+            if h is not None and h.id != f.id and len(h.blocks) < 60:
+                pushes = [bi for bi, t2 in h.calls() if re.search(r"Report::(error|error_span|push_parent|message)$", re.sub(r"::<[^<>]*>", "", t2.get("resolved") or t2.get("callee") or ""))]
+                rets = [bi for bi in h.reachable() if h.blocks[bi]["term"]["k"] == "return"]
+                if pushes and rets and all(any(h.dominates(p_, r_) for p_ in pushes) for r_ in rets):
+                    return True
     return False
 
 R = "SYM"
